@@ -31,6 +31,9 @@ RULE = ('Hypothesis generates authentication histories for an asyncssh '
         'pipelined requests, out-of-order release of asynchronous validator '
         'gates, authorized_keys option sets, and probes before and after '
         'success (session, pty, exec, direct-tcpip, tcpip-forward). '
+        'converse: the credential an asyncssh client presents, incl. '
+        'certificates with user/empty/foreign principal lists against CA '
+        'lines with and without principals=. '
         'Non-trivial = >=2 auth messages of which >=1 is invalid, or a user '
         'switch, or a gate released after a later request, or restrictions '
         'probed after success; distinct = abstracted history (method, '
